@@ -7,6 +7,7 @@ CONSTANTS
   MaxT = 2
   Kinds = {"way"}
   UnannChoices = {0}
+  LocKinds = {"n"}
   BreakAtLate = TRUE
 SPECIFICATION Spec
 INVARIANTS Exact1 Exact2 Pending1 Pending2 IndexErr1 IndexErr2 Compose FoldsAgree KFExact
